@@ -373,7 +373,7 @@ static int parse_inj(const char *s, long *ks, double *vs)
     return n;
 }
 
-static fdata_t fdatas[2 * MAXC + 1];
+static fdata_t fdatas[3 * MAXC + 2];
 
 static int add_constraints(nlopt_opt o, const char *spec, int role, int *nfd)
 {
@@ -481,7 +481,7 @@ static void one_run(const char *line)
         if ((v = getkey(line, "eq", b, sizeof b))) {
             for (it = strtok_r(b, ";", &save); it; it = strtok_r(NULL, ";", &save)) {
                 int ck = 0, j0 = 0; unsigned long long tb = 0, bb = 0;
-                fdata_t *e = &fdatas[1 + MAXC + pe];
+                fdata_t *e = &fdatas[1 + MAXC + 2 * pe];     /* equality data with a stride different from the inequality data */
                 sscanf(it, "s:%d:%llx:%llx:%d", &ck, &tb, &bb, &j0);
                 e->magic = 0xC0FFEEu; e->role = 2; e->vec = 0; e->m = 1; e->ck = ck; e->b = u2d(bb); e->j0 = j0; e->index = pe;
                 htol = u2d(tb);
@@ -495,9 +495,10 @@ static void one_run(const char *line)
         x = (double *) hc_keep(malloc(sizeof(double) * (n + 1)));
         { unsigned i; for (i = 0; i < n; ++i) x[i] = x0 ? x0[i] : 0.0; x[n] = 777.0; }
         optf = -12345.678;
+        vclock = gethex(line, "clock0", 0.0);
         ret = nlopt_minimize_econstrained((nlopt_algorithm) alg, (int) n, objective_old, &fdatas[0],
                                           mi, sconstraint_old, cd, (ptrdiff_t) sizeof(fdata_t),
-                                          pe, sconstraint_old, &fdatas[1 + MAXC], (ptrdiff_t) sizeof(fdata_t),
+                                          pe, sconstraint_old, &fdatas[1 + MAXC], (ptrdiff_t) (2 * sizeof(fdata_t)),
                                           lbv, ubv, x, &optf,
                                           gethex(line, "stopval", -HUGE_VAL), gethex(line, "ftol_rel", 0.0), gethex(line, "ftol_abs", 0.0),
                                           gethex(line, "xtol_rel", 0.0), xa, 0.0, htol,
